@@ -19,6 +19,7 @@ func init() { Registry["C18"] = C18 }
 type Seg struct {
 	Kind string // Const BE64 LE64 VAR LenPrefixed Raw
 	Arg  string // origin of the encoded value (param name) or constant bytes (hex)
+	E    *ir.Expr // the encoded value's origin expression (nil for constants)
 }
 
 func (s Seg) String() string {
@@ -102,9 +103,9 @@ func keyShape(c *Ctx, e *ir.Expr, depth int) ([]Seg, error) {
 		if k == "" {
 			k = "ENC:" + e.Name
 		}
-		return []Seg{{Kind: k, Arg: e.Args[0].String()}}, nil
+		return []Seg{{Kind: k, Arg: e.Args[0].String(), E: e.Args[0]}}, nil
 	case "param":
-		return []Seg{{Kind: "Raw", Arg: e.String()}}, nil
+		return []Seg{{Kind: "Raw", Arg: e.String(), E: e}}, nil
 	case "conv":
 		return keyShape(c, e.Args[0], depth+1)
 	case "call":
@@ -121,16 +122,16 @@ func keyShape(c *Ctx, e *ir.Expr, depth int) ([]Seg, error) {
 			return append(a, b...), nil
 		case strings.HasSuffix(e.Name, "cosmos-sdk/types.Uint64ToBigEndian") && len(e.Args) == 1:
 			// the SDK's fixed-width encoder: make([]byte, 8) + binary.BigEndian.PutUint64
-			return []Seg{{Kind: "BE64", Arg: e.Args[0].String()}}, nil
+			return []Seg{{Kind: "BE64", Arg: e.Args[0].String(), E: e.Args[0]}}, nil
 		case e.Name == "builtin:append" && len(e.Args) == 2 && e.Args[0].Op == "makeslice":
 			// append(make([]byte, 0, n), x...): an empty buffer followed by x
 			if z := e.Args[0].Args; len(z) >= 1 && z[0].Op == "const" && z[0].Name == "0" {
 				return keyShape(c, e.Args[1], depth+1)
 			}
 		case strings.HasSuffix(e.Name, "types/address.MustLengthPrefix") && len(e.Args) == 1:
-			return []Seg{{Kind: "LenPrefixed", Arg: e.Args[0].String()}}, nil
+			return []Seg{{Kind: "LenPrefixed", Arg: e.Args[0].String(), E: e.Args[0]}}, nil
 		case strings.HasSuffix(e.Name, "types.AccAddress).Bytes") && len(e.Args) == 1:
-			return []Seg{{Kind: "Raw", Arg: e.Args[0].String()}}, nil
+			return []Seg{{Kind: "Raw", Arg: e.Args[0].String(), E: e.Args[0]}}, nil
 		case e.Callee != nil:
 			if in := c.W.Inline(e); in != nil {
 				return keyShape(c, in, depth+1)
